@@ -827,6 +827,10 @@ func gen(x *hxlib.Ctx) {
 					od := otherDecision(r, d, otherDecisionKinds[r.Intn(len(otherDecisionKinds))])
 					c.emitVerify(x, "all-signed-other-decision", via, d, c.base(r, od, n))
 				}
+				// sequences of calls on one part / proof object
+				if n >= 1 {
+					c.genSeq(x, via, d)
+				}
 				// VerifyPart
 				if n >= 1 {
 					kp := c.keyed()
@@ -910,6 +914,9 @@ func gen(x *hxlib.Ctx) {
 		es2 := c.base(r, d, 2)
 		x.Emit(hxlib.Case{Kind: "canary", Canary: true, Coq: fmt.Sprintf("(let d := %s in CVerify d %s %s true)", d.coq(), c.coqVals(), coqEntries(es2, d))})
 		x.Emit(hxlib.Case{Kind: "canary", Canary: true, Coq: fmt.Sprintf("(let d := %s in CPart d %s 1 (Sg 3 d) (PIndex 1))", d.coq(), c.coqVals())})
+		od := otherDecision(r, d, "round+1")
+		x.Emit(hxlib.Case{Kind: "canary", Canary: true, Coq: fmt.Sprintf("(let d := %s in CPartSeq %s 0 (Sg 3 d) [(d, PIndex 0); (%s, PIndex 0)])", d.coq(), c.coqVals(), od.coq())})
+		x.Emit(hxlib.Case{Kind: "canary", Canary: true, Coq: fmt.Sprintf("(let d := %s in CVerifySeq %s %s [(d, true); (%s, true)])", d.coq(), c.coqVals(), coqEntries(es, d), od.coq())})
 	}
 }
 
@@ -1017,6 +1024,8 @@ func replay(raw json.RawMessage) string {
 		return replayOne(in)
 	case "pcm":
 		return replayPcm(raw)
+	case "partseq", "verifyseq":
+		return replaySeq(raw)
 	}
 	return "unknown case type " + t.T
 }
@@ -1024,7 +1033,7 @@ func replay(raw json.RawMessage) string {
 func main() {
 	hxlib.Main(hxlib.Spec{
 		ID: "C29",
-		Rule: "proof contexts of n=0..10 real secp256k1 keys (eth and icon network type modules, with and without key-less validators, built directly and re-read from bytes); for every n signature vectors with k valid signatures at their own positions for k in {0,1,f-1,f,f+1,f+2,n-1,n}, f=floor(2n/3), as long, shortened and nil-extended vectors, alone and with ONE entry that must not count: foreign key, another validator's signature (wrong index), a signature over another decision (src/ntid/height/round/section hash), over the other module's hash, bit-flipped r/s/v, zero/V-less/bad-V bytes, a signature at a key-less position, beyond the context, a signer repeated at a second position (all kinds at k=f and f+1, a sample elsewhere); rotated vectors; single proof parts through VerifyPart (right, other index, -1, n, huge, no signature, foreign, other decision, tampered); digests of 1..3 network types through proofContextMap.Verify with missing/extra/swapped/undecodable/insufficient proofs and wrong height/round/source. non-trivial = non-empty context and non-empty vector; distinct = distinct Coq case term",
+		Rule: "proof contexts of n=0..10 real secp256k1 keys (eth and icon network type modules, with and without key-less validators, built directly and re-read from bytes); for every n signature vectors with k valid signatures at their own positions for k in {0,1,f-1,f,f+1,f+2,n-1,n}, f=floor(2n/3), as long, shortened and nil-extended vectors, alone and with ONE entry that must not count: foreign key, another validator's signature (wrong index), a signature over another decision (src/ntid/height/round/section hash), over the other module's hash, bit-flipped r/s/v, zero/V-less/bad-V bytes, a signature at a key-less position, beyond the context, a signer repeated at a second position (all kinds at k=f and f+1, a sample elsewhere); rotated vectors; single proof parts through VerifyPart (right, other index, -1, n, huge, no signature, foreign, other decision, tampered); SEQUENCES of VerifyPart calls on one decoded part object and of Verify calls on one proof object (decoded, or built by NewProof+Add from parts already verified) with different decisions per call (right/other, other/right, …), every call judged on its own; digests of 1..3 network types through proofContextMap.Verify with missing/extra/swapped/undecodable/insufficient proofs and wrong height/round/source. non-trivial = non-empty context and non-empty vector; distinct = distinct Coq case term",
 		Gen:  gen, Replay: replay,
 	})
 }
